@@ -97,9 +97,23 @@ fn gen_pool_plan(g: &mut Gen, sequential_bias: bool) -> Value {
             last_end = std::cmp::max(last_end, t + hold);
             ops.push(json!({"t_ms": t, "op": "request", "hold_ms": hold}));
         }
-        if g.chance(12) {
+        if g.chance(25) {
             let kt = safe(g, (period + 1) * p);
             ops.push(json!({"t_ms": kt, "op": "kill", "which": g.range(0, 3)}));
+        }
+    }
+    // an external death keeps clear of every request instant (a session cut while a request is being
+    // set up on it makes that request fail legitimately, which the model does not describe) and of ticks
+    let req_times: Vec<u64> = ops.iter().filter(|o| o["op"] == "request").map(|o| o["t_ms"].as_u64().unwrap_or(0)).collect();
+    for o in ops.iter_mut() {
+        if o["op"] == "kill" {
+            let mut kt = o["t_ms"].as_u64().unwrap_or(0);
+            let mut guard = 0;
+            while guard < 200 && (req_times.iter().any(|t| kt + 400 > *t && kt < *t + 400) || kt % p < 100 || kt % p > p - 300) {
+                kt += 137;
+                guard += 1;
+            }
+            o["t_ms"] = json!(kt);
         }
     }
     let end_period = (last_end / p) + timeout_mult + 3 + period;
@@ -530,12 +544,8 @@ impl Check for C13 {
     }
     fn gen_plan(&self, seed: u64, _idx: u64, _t: bool) -> Value {
         let mut g = Gen::new(seed, "c13");
-        let mut p = gen_pool_plan(&mut g, true);
-        // no external deaths here: "healthy session" is then unambiguous
-        if let Some(a) = p["ops"].as_array_mut() {
-            a.retain(|o| o["op"] == "request");
-        }
-        p
+        // external session deaths are part of the histories: a dead session must not hide a healthy one
+        gen_pool_plan(&mut g, true)
     }
     fn horizon(&self, _p: &Value) -> Duration {
         Duration::from_secs(100_000)
@@ -561,7 +571,7 @@ impl Check for C13 {
             order.sort_by_key(|r| (r.t_start, r.sid));
             let reaper_closed_at = |id: u64, t: u64| -> bool {
                 // closed (by anything) before t, as far as the tick observations tell
-                obs.ticks.iter().any(|(k, snap, _)| k * obs.period_us + 60_000 <= t && snap.get(&id).copied().unwrap_or(false))
+                obs.ticks.iter().any(|(k, snap, _)| k * obs.period_us + 60_000 <= t && snap.get(&id).copied().unwrap_or(false)) || obs.kills.iter().any(|(kt, kid)| *kid == id && *kt <= t)
             };
             let mut redials = 0u64;
             let mut first_redial: Option<String> = None;
@@ -617,7 +627,7 @@ impl Check for C13 {
         out
     }
     fn rule(&self) -> &'static str {
-        "one case = a history of 2-9 request groups (strictly sequential with the previous stream ended before the next request starts, bursts of up to 4 simultaneous requests, or mixed; durations 20 ms .. 4 intervals; idle gaps up to 5 intervals) under pool settings interval {1,5,30} s x timeout {2,3,10} intervals x minimum idle {0,1,2,3}, no session deaths; TLS connections counted on the simulated network, open sessions observed after every tick; step-by-step comparison with the executable pool model + the two property clauses judged on the observations; non-trivial = at least two requests succeeded; distinct = distinct (plan hash, poll-order fingerprint)"
+        "one case = a history of 2-9 request groups (strictly sequential with the previous stream ended before the next request starts, bursts of up to 4 simultaneous requests, or mixed; durations 20 ms .. 4 intervals; idle gaps up to 5 intervals) under pool settings interval {1,5,30} s x timeout {2,3,10} intervals x minimum idle {0,1,2,3}, optional external session deaths; TLS connections counted on the simulated network, open sessions observed after every tick; step-by-step comparison with the executable pool model + the two property clauses judged on the observations; non-trivial = at least two requests succeeded; distinct = distinct (plan hash, poll-order fingerprint)"
     }
     fn real_components(&self) -> Vec<&'static str> {
         vec!["Client::create_proxy_stream / create_stream / create_new_session", "SessionPool: get_idle_session, add_idle_session, reaper task", "Session heartbeat", "Server::listen + TcpProxyHandler, rustls"]
